@@ -204,6 +204,30 @@ pub fn gen(seed: u64, thorough: bool) {
         let ops = random_ops(&mut rng, n, d.fperiod);
         emit(d.fperiod, n, &oneshot, d.generator(), &ops);
     }
+    // (2b) long generators: thousands of frames (beyond any block size an implementation might work in: 2048, 4096), frame
+    // period 1..2 to keep the lines short; a few steps and then `generate_all`, and one history that steps through every
+    // frame, past the end (seeded change C02i: `generate_all` rendering in blocks of 2048 frames appended the whole last block)
+    let nlong = if thorough { 12 } else { 3 };
+    for k in 0..nlong {
+        let n = *rng.pick(&[2049usize, 2500, 4097, 4500, 3000]) + rng.below(40);
+        let mut d = Direct::random(&mut rng, n);
+        d.fperiod = rng.range(1, 2);
+        let oneshot = d.generator().generate_all();
+        let fp = d.fperiod;
+        let ops: Vec<Op> = if k % 3 == 2 {
+            let mut o: Vec<Op> = (0..n + 2).map(|_| Op::Step(fp)).collect();
+            o.push(Op::Query);
+            o.push(Op::Finish);
+            o
+        } else {
+            let mut o: Vec<Op> = (0..rng.below(6)).map(|_| Op::Step(rng.range(fp, 3 * fp))).collect();
+            o.push(Op::Query);
+            o.push(Op::Finish);
+            o.push(Op::Step(fp));
+            o
+        };
+        emit(fp, n, &oneshot, d.generator(), &ops);
+    }
     // (3) real utterances through the engine (bundled voice), small frame period to keep lines short
     let corpus = corpus();
     let mut engine = Engine::load(&[BUNDLED_VOICE]).expect("bundled voice");
